@@ -324,6 +324,33 @@ func pageMain(args []string) {
 					rep.Fail(hx.Failure{Kind: "impl-violates-property", Key: "yield-not-prefix:" + kind, Case: line,
 						Expected: fmt.Sprint("prefix of ", all), Observed: fmt.Sprint(items)})
 				}
+				// honest collection: GetNext must succeed exactly while items remain, HasNext must say so
+				consumed, stopped := 0, false
+				for j, op := range ops {
+					switch op {
+					case 's':
+						stopped = true
+					case 'g':
+						wantOK := !stopped && consumed < len(all)
+						gotOK := outs[j] != "e"
+						if wantOK != gotOK {
+							rep.Fail(hx.Failure{Kind: "impl-violates-property", Key: "getnext-availability:" + kind, Case: line,
+								Expected: fmt.Sprintf("call #%d (GetNext) ok=%v, %d of %d items consumed", j, wantOK, consumed, len(all)), Observed: strings.Join(outs, ",")})
+						}
+						if gotOK {
+							consumed++
+						}
+					case 'h':
+						want := "f"
+						if !stopped && consumed < len(all) {
+							want = "t"
+						}
+						if outs[j] != want {
+							rep.Fail(hx.Failure{Kind: "impl-violates-property", Key: "hasnext-wrong:" + kind, Case: line,
+								Expected: fmt.Sprintf("call #%d (HasNext) = %s", j, want), Observed: strings.Join(outs, ",")})
+						}
+					}
+				}
 				if isDrain && len(items) != len(all) {
 					rep.Fail(hx.Failure{Kind: "impl-violates-property", Key: "drain-incomplete:" + kind, Case: line,
 						Expected: fmt.Sprint(all), Observed: fmt.Sprint(items)})
